@@ -845,12 +845,16 @@ class _Boom(Exception):
     pass
 
 
-def run_behaviour(beh, with_cl, method, protocol, req_version):
+BEH_STATUSES = ["200 OK", "404 Not Found", "204 No Content", "304 Not Modified", "500 Oops"]
+
+
+def run_behaviour(beh, with_cl, method, protocol, req_version, status0="200 OK"):
     """Applications that use the rarer parts of the WSGI response protocol, or fail.  Returns [(sig, text)]."""
     items = [b"a", b"", b"bc"]
     body = b"".join(items)
     hdr = [("X-App", "v1")] + ([("Content-Length", str(len(body)))] if with_cl else [])
-    status = "200" if beh == "bare-status" else "200 OK"
+    code0, _, reason0 = status0.partition(" ")
+    status = code0 if beh == "bare-status" else status0
     closed = []
     crash = beh in ("exc-before-start", "exc-after-start", "start-twice", "exc-after-first-item",
                     "exc_info-after-write", "write-then-exc")
@@ -872,7 +876,7 @@ def run_behaviour(beh, with_cl, method, protocol, req_version):
         if beh == "exc-before-start":
             raise _Boom("before start_response")
         if beh == "exc_info-replace":
-            start_response("200 OK", [("X-First", "1")])
+            start_response(status0, [("X-First", "1")])
             try:
                 raise _Boom("handled")
             except _Boom:
@@ -917,7 +921,8 @@ def run_behaviour(beh, with_cl, method, protocol, req_version):
     out, logs = serve(app, raw, protocol)
     v = []
     want_body = b"" if beh == "write-empty-only" else body
-    chunk_ok = (protocol == "HTTP/1.1" and req_version == "HTTP/1.1" and method != "HEAD")
+    chunk_ok = (protocol == "HTTP/1.1" and req_version == "HTTP/1.1" and method != "HEAD"
+                and ("503" if beh == "exc_info-replace" else code0) not in ("204", "304"))
     if req_version == "0.9":
         # no status line, no headers: the body must arrive as it is
         if crash:
@@ -945,7 +950,7 @@ def run_behaviour(beh, with_cl, method, protocol, req_version):
             if dechunk_strict(payload) is None:
                 v.append(("chunked-body-malformed", repr(payload[:80])))
         return v
-    want_code, want_reason, want_hdr = "200", ("" if beh == "bare-status" else "OK"), hdr
+    want_code, want_reason, want_hdr = code0, ("" if beh == "bare-status" else reason0), hdr
     if beh == "exc_info-replace":
         want_code, want_reason = "503", "Busy"
     if code != want_code:
@@ -958,7 +963,7 @@ def run_behaviour(beh, with_cl, method, protocol, req_version):
             break
     if beh == "exc_info-replace" and any(k == "X-First" for k, _v in hdrs):
         v.append(("replaced-headers-still-sent", repr(hdrs)))
-    if beh == "exc_info-after-write" and (code != "200" or any(k == "X-Late" for k, _v in hdrs)):
+    if beh == "exc_info-after-write" and (code != code0 or any(k == "X-Late" for k, _v in hdrs)):
         v.append(("status-changed-after-output-started", repr((code, hdrs))))
     want_chunked = (not with_cl) and chunk_ok
     if crash:
@@ -1048,7 +1053,7 @@ EXPECTS = [None, ("Expect", "100-continue"), ("expect", "100-Continue"), ("EXPEC
 def tier_params(tier):
     if tier == "thorough":
         return dict(nmax=9, wdepth=3, bmax=7, items=5)
-    return dict(nmax=6, wdepth=2, bmax=4, items=3)
+    return dict(nmax=8, wdepth=2, bmax=7, items=5)
 
 
 def units(tier):
@@ -1313,17 +1318,19 @@ def run_unit_b2(unit, R, tier):
                 for rv in ("HTTP/1.1", "HTTP/1.0", "0.9"):
                     if rv == "0.9" and method != "GET":
                         continue
-                    R.ev()
-                    R.count("executions")
-                    R.count("responses")
-                    R.use("B-beh:" + beh, "B-beh:req-" + rv)
-                    R.nontrivial(("beh", proto, beh, with_cl, method, rv))
-                    v = run_behaviour(beh, with_cl, method, proto, rv)
-                    R.outcome(("Bbeh", beh, tuple(s for s, _t in v)))
-                    for sig, text in v:
-                        R.violation("B:behaviour:" + sig, {"kind": "B-beh", "beh": beh, "with_cl": with_cl,
-                                                           "method": method, "protocol": proto, "req_version": rv,
-                                                           "sig": sig, "text": text})
+                    for st0 in BEH_STATUSES:
+                        R.ev()
+                        R.count("executions")
+                        R.count("responses")
+                        R.use("B-beh:" + beh, "B-beh:req-" + rv, "B-beh:status-" + st0[:3])
+                        R.nontrivial(("beh", proto, beh, with_cl, method, rv, st0))
+                        v = run_behaviour(beh, with_cl, method, proto, rv, st0)
+                        R.outcome(("Bbeh", beh, tuple(s for s, _t in v)))
+                        for sig, text in v:
+                            R.violation("B:behaviour:" + sig, {"kind": "B-beh", "beh": beh, "with_cl": with_cl,
+                                                               "method": method, "protocol": proto,
+                                                               "req_version": rv, "status": st0, "sig": sig,
+                                                               "text": text})
 
 
 def finalize(R, tier):
@@ -1336,7 +1343,7 @@ def finalize(R, tier):
             "B-req:none", "B-req:cl", "B-req:chunked", "B-resp:chunked", "B-resp:plain",
             "B-resp:cl-spelling", "B-resp:extra-headers", "B-req:spelling",
             "B-resp:header-list-empty", "B-resp:header-list-single", "B-env:expect", "B-env:plain", "B-env:ssl", "B-beh:req-0.9", "B-beh:req-HTTP/1.0"}
-    need |= {"B-beh:" + b for b in BEHAVIOURS}
+    need |= {"B-beh:" + b for b in BEHAVIOURS} | {"B-beh:status-" + x[:3] for x in BEH_STATUSES}
     missing = need - R.used
     if missing:
         raise core.Broken(f"vacuity: never exercised {sorted(missing)}")
@@ -1385,9 +1392,10 @@ def replay(rec):
             f"'POST {rec['target']} {rec['req_version']}' extra header={ex!r} pipelined second request="
             f"{rec['pipelined']} server protocol={rec['protocol']}\nviolations = {v}")
     if k == "B-beh":
-        v = run_behaviour(rec["beh"], rec["with_cl"], rec["method"], rec["protocol"], rec["req_version"])
+        v = run_behaviour(rec["beh"], rec["with_cl"], rec["method"], rec["protocol"], rec["req_version"],
+                          rec.get("status", "200 OK"))
         return any(s == rec["sig"] for s, _t in v), (
-            f"application behaviour={rec['beh']} Content-Length given={rec['with_cl']} request={rec['method']} "
+            f"application behaviour={rec['beh']} status={rec.get('status', '200 OK')!r} Content-Length given={rec['with_cl']} request={rec['method']} "
             f"{rec['req_version']} server protocol={rec['protocol']}\nviolations = {v}")
     if k == "B-resp":
         v, chunked = run_response(rec["status"], rec["with_cl"], tuple(rec["items"]), rec["use_write"],
